@@ -187,6 +187,54 @@ def main():
                 out.write("CCASE xr-%d-%d f%d %s %s %s\n" % (a.seed, nxr, f["idx"], f["fl"], f["pol"], f["limit"] if f["limit"] else "-"))
                 out.write("P %s\nP age %d 1 %d\nA %s\nB %s\nPAUSE %d\nQ %s\nEND\n" % (okc, f["idx"], age, errc, okc, pause, okc))
                 nxr += 1
+    # two first calls for DIFFERENT keys that overlap (C03: "never again once any call that stored the result has returned"):
+    # a plain cache, or one with room for both; A is parked somewhere inside its call (between the map section and the
+    # queue section of its store at some pause points), B stores another key meanwhile; afterwards both keys are served
+    ndk = 0
+    with open(a.out, "a") as out:
+        for f in allf:
+            if f["fl"] == "t" or f["sig"] != 0 or f["gates"] or f["ret"] != 0:
+                continue
+            if f["ttl"] or f["mem"] or f["cache_if"] or f["inval_on"] or (f["limit"] is not None and f["limit"] < 3):
+                continue
+            if ndk >= (150 if a.count > 0 else 900):
+                break
+            for pause in range(1, 6):
+                out.write("CCASE dk-%d-%d f%d %s %s %s\n" % (a.seed, ndk, f["idx"], f["fl"], f["pol"], f["limit"] if f["limit"] else "-"))
+                out.write("A %s\nB %s\nPAUSE %d\nQ %s\nQ %s\nEND\n" % (call(f, 0), call(f, 1), pause, call(f, 0), call(f, 1)))
+                ndk += 1
+    # sharing with a lifetime (C14): A and B miss the same key; A is parked inside its call, B stores; the stored entry then
+    # reaches its ttl (thread C re-stamps it) while A is still computing; A resumes and stores ITS result, which is fresh:
+    # the next caller must be served
+    nex = 0
+    with open(a.out, "a") as out:
+        for f in allf:
+            if f["fl"] == "t" or f["sig"] != 0 or f["gates"] or f["ret"] not in (0, 1, 2, 3) or not f["ttl"]:
+                continue
+            if f["mem"] or f["cache_if"] or f["inval_on"] or (f["limit"] is not None and f["limit"] < 2):
+                continue
+            age = (f["ttl"] + 1) * (1 if f["fl"] == "a" else 1000)
+            for pause in range(1, 6):
+                out.write("CCASE ex-%d-%d f%d %s %s %s\n" % (a.seed, nex, f["idx"], f["fl"], f["pol"], f["limit"] if f["limit"] else "-"))
+                out.write("A %s\nB %s\nC age %d 1 %d\nPAUSE %d\nQ %s\nEND\n" % (call(f, 1), call(f, 1), f["idx"], age, pause, call(f, 1)))
+                nex += 1
+    # sharing under max_memory (C14): one key is cached; A and B miss another key at the same time and both store it (the
+    # second store REPLACES the first); both values and the resident one fit the budget together, three would not: the
+    # resident entry, stored by yet another caller, is still served
+    ndm = 0
+    with open(a.out, "a") as out:
+        for f in allf:
+            if f["fl"] == "t" or f["sig"] != 0 or f["gates"] or f["ret"] not in (1, 3) or not f["mem"]:
+                continue
+            if f["ttl"] or f["cache_if"] or f["inval_on"] or (f["limit"] is not None and f["limit"] < 3):
+                continue
+            ln = f["mem"] // 2 - 33
+            if ln < 1:
+                continue
+            for pause in range(1, 6):
+                out.write("CCASE dm-%d-%d f%d %s %s -\n" % (a.seed, ndm, f["idx"], f["fl"], f["pol"]))
+                out.write("P %s\nA %s\nB %s\nPAUSE %d\nQ %s\nEND\n" % (call(f, 1, ln), call(f, 2, ln), call(f, 2, ln), pause, call(f, 1, ln)))
+                ndm += 1
     # recency under concurrency (C07): an LRU cache at capacity (limit >= 3); A stores a NEW key and is parked somewhere inside
     # its store (at some pause points it holds the queue lock), B meanwhile looks up a resident key (a hit: a USE of that key).
     # Whatever the interleaving, the resident keys that neither thread touched were used longer ago than both, so the next
